@@ -868,12 +868,14 @@ def main(tier, replay=None):
         try:
             import dis
             mod = compile(open(path).read(), path, "exec")
-            stack = [mod]
+            want = ("check_type", "check_subclass", "validator", "__instancecheck__")
+            stack = [(mod, False)]
             while stack:
-                co = stack.pop()
-                if co.co_name in ("check_type", "check_subclass", "validator", "__instancecheck__", "<genexpr>"):
+                co, inside = stack.pop()
+                inside = inside or co.co_name in want
+                if inside:
                     code_lines |= {ln for _, ln in dis.findlinestarts(co) if ln}
-                stack += [c for c in co.co_consts if hasattr(c, "co_code")]
+                stack += [(c, inside) for c in co.co_consts if hasattr(c, "co_code")]
         except OSError:
             pass
         src[name] = {"executed": sorted(tracer.lines[name] & code_lines),
